@@ -173,7 +173,7 @@ def build(ctx, o):
             if t not in cases:
                 cases[t] = (kind, name)
                 per[kind] += 1
-    for ch in EXOTIC + ["é", "$", "\t"]:
+    for ch in EXOTIC + ["é", "$", "\t", "#", "#1", "'", "{", "|", "=", "]", "  # x"]:
         for name, text in (("exotic-in-comment", "name p # a%sb\nversion 1.0\n# %s\nG | 0 #%s\n"), ("exotic-in-string", "name p\nversion 1.0\ntarget g (s=\"a%sb\")\nstr s = \"%s\"\nG(\"%s\") | 0\n"),
                            ("exotic-between-tokens", "name p\nversion 1.0\nG | 0%sH | 1\n%sK | 2\nL%s | 3\n")):
             for k in range(3):
@@ -191,6 +191,10 @@ def build(ctx, o):
                     cases[t] = (kind + "-" + tag, name)
                     per[kind + "-" + tag] += 1
     header = "name p\nversion 1.0\n\n"
+    for nm in ("foo", "1", "x.y", "MeasureX", "name", "q0", "prog.xbb", "True", "pi", "1.0"):
+        if nm not in cases:
+            cases[nm] = ("file-name-as-text", "cwd")
+            per["file-name-as-text"] += 1
     prefixes = [header, header + "G(", header + "G(1, ", header + "G | ", header + "int n = ", header + "float array A =\n    ",
                 header + "for int i in ", header + "for int i in 0:2\n    ", "name p\nversion 1.0\ntarget g ", ""]
     small = [a for a in alpha if a in ("1", "1.0", "foo", "q0", "(", ")", "[", "]", "{", "}", ",", "=", "|", "+", "**", "\n", "    ", "int", "array", "for", "in", ":", '"s"', "True", "$", "sin", "name", "MeasureX", "é", ";")]
@@ -215,7 +219,24 @@ def build(ctx, o):
     return cases, per
 
 
+def _chdir(d):
+    os.chdir(d)
+    return True
+
+
+def make_cwd(ctx):
+    """a working directory in which files named like single tokens exist and hold a valid program
+    (a string passed to loads() is text, never a path)"""
+    d = os.path.join(ctx.scratch, "c10cwd")
+    os.makedirs(d, exist_ok=True)
+    for nm in ("foo", "1", "x.y", "MeasureX", "name", "q0", "prog.xbb", "True", "pi", "1.0"):
+        with open(os.path.join(d, nm), "w") as f:
+            f.write(BASES["meta-plain"])
+    return d
+
+
 def run(ctx):
+    os.chdir(make_cwd(ctx))      # the pool workers are forked from this process and inherit the directory
     o = oracle()
     V = common.Violations(keep=6)
     for name, text in BASES.items():
